@@ -21,6 +21,14 @@
 //     Keys: one per root cause.  A failing history is minimised; a stale result after "set_up; setters; compute" is reported as the
 //     history_independence failure of the preceding set_up if the history without those setters already fails; a history that
 //     contains the setters of an already reported minimal history is re-run without them (a second defect is reported on its own).
+//   In-place worlds (ip=1): the caller of the simulation owns one activity, one attenuation and one scatter-point image object (M_A, M_D, M_S;
+//     the initial configuration is made with them) and the alphabet has 6 more operations "update_in_place_and_set_*(Xk)": the voxel values of
+//     the caller's object are overwritten IN PLACE with those of Xk and the setter is called with the SAME shared_ptr as before (what
+//     ScatterEstimation does with its current activity estimate).  Same oracle: the configuration tuple now says Xk, every compute after a valid
+//     set_up == fresh object configured with (untouched) Xk.  The original 6 image setters (other objects) stay in the alphabet, so "same object
+//     again", "other object", "back to the first object whose contents changed meanwhile" all occur.
+//   Part E re-uses two objects (cache on/off) per configuration over all superpositions: activity image object overwritten in place, same
+//     pointer set again, set_up, compute == output of the fresh object for that activity.
 #include "vmc.h"
 #include "stir_small.h"
 #include "stir/scatter/SingleScatterSimulation.h"
@@ -63,12 +71,13 @@ struct World
 {
   int g = 0, zoom = 0, tv = 0; // geometry family, 0: explicit zoom factors 0.5/0.5, 1: STIR defaults (-1); template variant
   int S0 = 0;                  // scatter-point image of the initial configuration of part H (0: S1, -1: derived from D1)
+  int ip = 0;                  // 1: in-place world: initial configuration uses caller-owned mutable image objects, alphabet includes the in-place updates
   int Dd = 8, R = 2;
   shared_ptr<ProjDataInfo> T[2];
   shared_ptr<ExamInfo> E[2];
   shared_ptr<Vox> A[2], Dn[3], S[2];
   float thr[2] = { 0.01F, 0.05F };
-  std::string name() const { return "g=" + vmc::str(g) + ";zoom=" + vmc::str(zoom) + ";tv=" + vmc::str(tv) + ";s0=" + vmc::str(S0); }
+  std::string name() const { return "g=" + vmc::str(g) + ";zoom=" + vmc::str(zoom) + ";tv=" + vmc::str(tv) + ";s0=" + vmc::str(S0) + (ip ? ";ip=1" : ""); }
 };
 
 static shared_ptr<Vox> grid(int nz, int half, float vz, float vxy)
@@ -144,7 +153,8 @@ static World make_world(int g, int zoom, int tv)
   return w;
 }
 
-static std::unique_ptr<SingleScatterSimulation> make_sim(const World& w, const Cfg& c, shared_ptr<const Vox> act = shared_ptr<const Vox>())
+static std::unique_ptr<SingleScatterSimulation> make_sim(const World& w, const Cfg& c, shared_ptr<const Vox> act = shared_ptr<const Vox>(),
+                                                         shared_ptr<const Vox> dens = shared_ptr<const Vox>(), shared_ptr<const Vox> scat = shared_ptr<const Vox>())
 {
   // order of a parameter file: scalars first, then template, exam info, images
   std::unique_ptr<SingleScatterSimulation> s(new SingleScatterSimulation());
@@ -155,8 +165,8 @@ static std::unique_ptr<SingleScatterSimulation> make_sim(const World& w, const C
   s->set_template_proj_data_info(*w.T[c.T]);
   s->set_exam_info(*w.E[c.E]);
   s->set_activity_image_sptr(act ? act : shared_ptr<const Vox>(w.A[c.A]));
-  s->set_density_image_sptr(w.Dn[c.D]);
-  if (c.S >= 0) s->set_density_image_for_scatter_points_sptr(w.S[c.S]);
+  s->set_density_image_sptr(dens ? dens : shared_ptr<const Vox>(w.Dn[c.D]));
+  if (c.S >= 0) s->set_density_image_for_scatter_points_sptr(scat ? scat : shared_ptr<const Vox>(w.S[c.S]));
   return s;
 }
 
@@ -280,11 +290,17 @@ struct Fresh
 };
 
 // ------------------------------------------------------------------------------------------------ part H
-static const char* const OPNAME[16] = { "set_activity_image_sptr(A1)", "set_activity_image_sptr(A2)", "set_density_image_sptr(D1)", "set_density_image_sptr(D2)",
+static const char* const OPNAME[22] = { "set_activity_image_sptr(A1)", "set_activity_image_sptr(A2)", "set_density_image_sptr(D1)", "set_density_image_sptr(D2)",
                                         "set_density_image_for_scatter_points_sptr(S1)", "set_density_image_for_scatter_points_sptr(S2)",
                                         "set_template_proj_data_info(T1)", "set_template_proj_data_info(T2)", "set_exam_info(E1)", "set_exam_info(E2)",
-                                        "set_attenuation_threshold(t1)", "set_attenuation_threshold(t2)", "set_use_cache(0)", "set_use_cache(1)", "set_up", "compute" };
-static const int NOPS = 16, OP_SETUP = 14, OP_COMPUTE = 15;
+                                        "set_attenuation_threshold(t1)", "set_attenuation_threshold(t2)", "set_use_cache(0)", "set_use_cache(1)", "set_up", "compute",
+                                        // in-place worlds only: overwrite the voxel values of the caller's object with those of Xk, call the setter with that same object
+                                        "update_in_place_and_set_activity_image_sptr(A1)", "update_in_place_and_set_activity_image_sptr(A2)",
+                                        "update_in_place_and_set_density_image_sptr(D1)", "update_in_place_and_set_density_image_sptr(D2)",
+                                        "update_in_place_and_set_density_image_for_scatter_points_sptr(S1)", "update_in_place_and_set_density_image_for_scatter_points_sptr(S2)" };
+static const int NOPS = 16, NOPS_IP = 22, OP_SETUP = 14, OP_COMPUTE = 15, OP_IP = 16;
+static bool is_setter(int op) { return op < OP_SETUP || op >= OP_IP; }
+static bool is_in_place(int op) { return op >= OP_IP; }
 static std::string kind_of(int op) { std::string n = OPNAME[op]; return n.substr(0, n.find('(')); }
 static std::string hist_names(const std::vector<int>& h) { std::string s; for (int o : h) s += std::string(OPNAME[o]) + "; "; return s; }
 
@@ -352,7 +368,15 @@ static Verdict run_history(const World& w, int phase, const std::vector<int>& h,
   std::unique_ptr<SingleScatterSimulation> s;
   auto fail = [&](const std::string& clause, const std::string& detail, const std::string& msg) {
     V.clause = clause; V.detail = detail; V.msg = msg; V.cache_at_failure = c.cache; };
-  try { s = make_sim(w, c); }
+  // image objects owned by the caller of the simulation (private to this history) whose voxel values are updated in place
+  shared_ptr<Vox> mutA(w.A[0]->clone()), mutD(w.Dn[0]->clone()), mutS(w.S[0]->clone());
+  bool aM = false, dM = false, sM = false; // model: the last argument of the respective setter was the caller's mutable object
+  auto overwrite = [](Vox& dest, const Vox& src) { std::copy(src.begin_all(), src.end_all(), dest.begin_all()); };
+  try
+    {
+      if (w.ip) { s = make_sim(w, c, mutA, mutD, mutS); aM = dM = true; sM = c.S >= 0; }
+      else s = make_sim(w, c);
+    }
   catch (std::exception& e) { fail("unexpected_error", "op=initial_configuration", e.what()); return V; }
   auto do_setup = [&]() -> bool {
     std::string what;
@@ -416,9 +440,13 @@ static Verdict run_history(const World& w, int phase, const std::vector<int>& h,
       V.at = (int)i;
       switch (op)
         {
-        case 0: case 1: threw = small::throws([&] { s->set_activity_image_sptr(w.A[op - 0]); }, &what); c.A = op - 0; valid = false; break;
-        case 2: case 3: threw = small::throws([&] { s->set_density_image_sptr(w.Dn[op - 2]); }, &what); c.D = op - 2; c.S = -1; valid = false; break;
-        case 4: case 5: threw = small::throws([&] { s->set_density_image_for_scatter_points_sptr(w.S[op - 4]); }, &what); c.S = op - 4; valid = false; break;
+        case 0: case 1: threw = small::throws([&] { s->set_activity_image_sptr(w.A[op - 0]); }, &what); c.A = op - 0; valid = false; aM = false; break;
+        case 2: case 3: threw = small::throws([&] { s->set_density_image_sptr(w.Dn[op - 2]); }, &what); c.D = op - 2; c.S = -1; valid = false; dM = false; sM = false; break;
+        case 4: case 5: threw = small::throws([&] { s->set_density_image_for_scatter_points_sptr(w.S[op - 4]); }, &what); c.S = op - 4; valid = false; sM = false; break;
+        // the caller's object gets the voxel values of Xk in place and is handed over (again)
+        case 16: case 17: overwrite(*mutA, *w.A[op - 16]); threw = small::throws([&] { s->set_activity_image_sptr(mutA); }, &what); c.A = op - 16; valid = false; if (aM && ctx) ctx->count("setter_calls_with_the_same_object_after_in_place_update"); aM = true; break;
+        case 18: case 19: overwrite(*mutD, *w.Dn[op - 18]); threw = small::throws([&] { s->set_density_image_sptr(mutD); }, &what); c.D = op - 18; c.S = -1; valid = false; if (dM && ctx) ctx->count("setter_calls_with_the_same_object_after_in_place_update"); dM = true; sM = false; break;
+        case 20: case 21: overwrite(*mutS, *w.S[op - 20]); threw = small::throws([&] { s->set_density_image_for_scatter_points_sptr(mutS); }, &what); c.S = op - 20; valid = false; if (sM && ctx) ctx->count("setter_calls_with_the_same_object_after_in_place_update"); sM = true; break;
         case 6: case 7: threw = small::throws([&] { s->set_template_proj_data_info(*w.T[op - 6]); }, &what); c.T = op - 6; valid = false; break;
         case 8: case 9: threw = small::throws([&] { s->set_exam_info(*w.E[op - 8]); }, &what); c.E = op - 8; valid = false; break;
         case 10: case 11: threw = small::throws([&] { s->set_attenuation_threshold(w.thr[op - 10]); }, &what); c.thr = op - 10; valid = false; break;
@@ -426,13 +454,15 @@ static Verdict run_history(const World& w, int phase, const std::vector<int>& h,
         case OP_SETUP: if (!do_setup()) return V; break;
         case OP_COMPUTE: if (!do_compute()) return V; break;
         }
-      if (op < OP_SETUP)
+      if (is_setter(op))
         {
           last_setter = op;
           if (threw) { fail("unexpected_error", "op=" + kind_of(op), std::string(OPNAME[op]) + " threw: " + what.substr(0, 200)); return V; }
         }
     }
   V.canon = c.str() + "|v" + vmc::str(valid) + "|e" + vmc::str(ever) + "|" + vmc::str(hidden_state(*s, ever)) + "|" + (has_last ? vmc::str(last.hash()) : std::string("-"));
+  if (w.ip) // which objects the simulation was given last / really holds is part of the state: "same object again" and "other object" are different futures
+    V.canon += "|m" + vmc::str(aM) + vmc::str(dM) + vmc::str(sM) + vmc::str(s->activity_image_sptr.get() == mutA.get()) + vmc::str(s->density_image_sptr.get() == mutD.get());
   return V;
 }
 
@@ -461,10 +491,10 @@ static void run_H(vmc::Ctx& ctx, const World& w, int phase, int depth, uint64_t&
   Fresh fresh(w);
   std::vector<Culprit> culprits;
   const std::string wname = "part=H;" + w.name() + ";phase=" + vmc::str(phase);
-  auto setters_of = [](const std::vector<int>& h) { std::vector<int> s; for (int o : h) if (o < OP_SETUP) s.push_back(o); std::sort(s.begin(), s.end()); return s; };
+  auto setters_of = [](const std::vector<int>& h) { std::vector<int> s; for (int o : h) if (is_setter(o)) s.push_back(o); std::sort(s.begin(), s.end()); return s; };
   auto make_key = [&](const Verdict& v, const std::vector<int>& hmin) {
     std::string kinds; std::set<std::string> seen;
-    for (int o : hmin) if (o < OP_SETUP && seen.insert(kind_of(o)).second) kinds += (kinds.empty() ? "" : "+") + kind_of(o);
+    for (int o : hmin) if (is_setter(o) && seen.insert(kind_of(o)).second) kinds += (kinds.empty() ? "" : "+") + kind_of(o);
     if (kinds.empty()) kinds = "none";
     return "clause=" + v.clause + (v.detail.empty() ? "" : ";" + v.detail) + ";setters=" + kinds + ";cache=" + vmc::str(v.cache_at_failure);
   };
@@ -480,7 +510,7 @@ static void run_H(vmc::Ctx& ctx, const World& w, int phase, int depth, uint64_t&
         if (last_setup >= 0 || phase == 1)
           {
             std::vector<int> g2;
-            for (int i = 0; i <= v.at; ++i) if (i <= last_setup || g[i] >= OP_SETUP) g2.push_back(g[i]);
+            for (int i = 0; i <= v.at; ++i) if (i <= last_setup || !is_setter(g[i])) g2.push_back(g[i]);
             if (g2.size() < g.size())
               {
                 const Verdict v2 = run_history(w, phase, g2, fresh, nullptr);
@@ -498,7 +528,7 @@ static void run_H(vmc::Ctx& ctx, const World& w, int phase, int depth, uint64_t&
           if (!cu.setters.empty())
             {
               std::vector<int> g;
-              for (int o : h) if (o >= OP_SETUP || !std::binary_search(cu.setters.begin(), cu.setters.end(), o)) g.push_back(o);
+              for (int o : h) if (!is_setter(o) || !std::binary_search(cu.setters.begin(), cu.setters.end(), o)) g.push_back(o);
               const Verdict vg = run_history(w, phase, g, fresh, nullptr);
               ctx.count("attributed_histories_rechecked_without_the_culprit_setters");
               if (vg.bad()) report(g, vg);
@@ -508,10 +538,22 @@ static void run_H(vmc::Ctx& ctx, const World& w, int phase, int depth, uint64_t&
     Verdict vmin = v;
     const std::vector<int> hmin = minimise(w, phase, h, v.clause, fresh, vmin);
     Culprit cu; cu.clause = v.clause; cu.setters = setters_of(hmin); cu.key = make_key(vmin, hmin);
+    if (std::find_if(hmin.begin(), hmin.end(), is_in_place) != hmin.end() && vmin.cache_at_failure == 1)
+      { // a minimal history with an in-place update that fails with the cache enabled: does the same history give the correct results once the
+        // cache has been disabled (clause "the same with the line-integral cache enabled or disabled" broken as well) ?
+        std::vector<int> g; g.push_back(12);
+        for (int o : hmin) if (o != 12 && o != 13) g.push_back(o);
+        const Verdict vc = run_history(w, phase, g, fresh, nullptr);
+        cu.key += vc.bad() ? ";same_history_with_cache_disabled=wrong_too" : ";same_history_with_cache_disabled=correct"; // correct: clause cache_independence is broken too
+        vmin.msg += vc.bad() ? "   [the same history after set_use_cache(0) fails too: " + vc.clause + "]" : "   [the same history after set_use_cache(0) gives the correct result: cache enabled != cache disabled]";
+      }
     if (w.g != 0 || w.zoom != 0 || w.tv != 0 || w.S0 != 0)
       { // the key names the world only if the same history does not fail in the base world (small scanner, explicit zoom factors and scatter-point image)
-        static World base = make_world(0, 0, 0);
-        static Fresh base_fresh(base);
+        static World base0 = make_world(0, 0, 0);
+        static World base1 = [] { World b = make_world(0, 0, 0); b.ip = 1; return b; }();
+        static Fresh base_fresh0(base0), base_fresh1(base1);
+        const World& base = w.ip ? base1 : base0;
+        Fresh& base_fresh = w.ip ? base_fresh1 : base_fresh0;
         const Verdict vb = run_history(base, phase, hmin, base_fresh, nullptr);
         if (vb.clause != v.clause)
           cu.key += std::string(";world=") + (w.g ? "larger_scanner," : "") + (w.zoom ? "default_zoom_factors," : "") + (w.tv ? "T2_with_other_detector_count," : "") + (w.S0 < 0 ? "derived_scatter_point_image" : "explicit_scatter_point_image");
@@ -522,7 +564,7 @@ static void run_H(vmc::Ctx& ctx, const World& w, int phase, int depth, uint64_t&
   if (replay)
     {
       auto m = vmc::kv(ctx.replay);
-      if (m["part"] != "H" || atoi(m["g"].c_str()) != w.g || atoi(m["zoom"].c_str()) != w.zoom || atoi(m["tv"].c_str()) != w.tv || atoi(m["s0"].c_str()) != w.S0 || atoi(m["phase"].c_str()) != phase) return;
+      if (m["part"] != "H" || atoi(m["g"].c_str()) != w.g || atoi(m["zoom"].c_str()) != w.zoom || atoi(m["tv"].c_str()) != w.tv || atoi(m["s0"].c_str()) != w.S0 || atoi(m["ip"].c_str()) != w.ip || atoi(m["phase"].c_str()) != phase) return;
       const std::vector<int> h = vmc::ints(m["h"]);
       fprintf(stderr, "replaying %s history: %s\n", wname.c_str(), hist_names(h).c_str());
       ctx.current(wname, wname + ";h=" + vmc::join(h));
@@ -531,12 +573,13 @@ static void run_H(vmc::Ctx& ctx, const World& w, int phase, int depth, uint64_t&
       if (v.bad()) report(h, v);
       return;
     }
-  for (int first = 0; first < NOPS; ++first, ++unit)
+  const int nops = w.ip ? NOPS_IP : NOPS;
+  for (int first = 0; first < nops; ++first, ++unit)
     {
       if (!ctx.mine(unit)) continue;
       if (ctx.expired()) return;
       vmc::HistSearch hs;
-      hs.nops = NOPS; hs.max_depth = depth - 1;
+      hs.nops = nops; hs.max_depth = depth - 1;
       hs.expired = [&] { return ctx.expired(); };
       hs.build = [&](const std::vector<int>& tail, std::string& ek, std::string& em) -> std::string {
         std::vector<int> h; h.push_back(first); h.insert(h.end(), tail.begin(), tail.end());
@@ -557,10 +600,10 @@ static void run_H(vmc::Ctx& ctx, const World& w, int phase, int depth, uint64_t&
       ctx.count("transitions", r.transitions + 1);
       ctx.count("traces_validated_against_impl", r.executions);
       if (!r.complete) ctx.exhaustive = false;
-      else ctx.maxi("depth_completed_" + std::string("g") + vmc::str(w.g) + "zoom" + vmc::str(w.zoom) + "tv" + vmc::str(w.tv) + "s0" + (w.S0 < 0 ? std::string("auto") : std::string("S1")) + "phase" + vmc::str(phase), depth);
+      else ctx.maxi("depth_completed_" + std::string("g") + vmc::str(w.g) + "zoom" + vmc::str(w.zoom) + "tv" + vmc::str(w.tv) + "s0" + (w.S0 < 0 ? std::string("auto") : std::string("S1")) + (w.ip ? "inplace" : "") + "phase" + vmc::str(phase), depth);
     }
   ctx.count("fresh_configurations_computed", fresh.computed);
-  ctx.maxi("alphabet_size", NOPS);
+  ctx.maxi("alphabet_size", nops);
 }
 
 // ------------------------------------------------------------------------------------------------ part E
@@ -635,6 +678,16 @@ static void run_E(vmc::Ctx& ctx, const World& w, const ECase& e)
       acts.push_back(a);
     }
   const double eps = 1.1920929e-7;
+  // two objects (cache off / on) that live as long as the configuration: their activity image object `upd` belongs to the caller, is overwritten
+  // in place with each superposition and handed over again through set_activity_image_sptr(same pointer); first compute: zero activity
+  shared_ptr<Vox> upd = grid(NZ, HALF, VZ, VXY);
+  std::unique_ptr<SingleScatterSimulation> reused[2];
+  Out reused_prev[2];
+  for (int cache = 0; cache < 2; ++cache)
+    {
+      run(upd, cache, &reused[cache]);
+      if (reused[cache]) reused_prev[cache] = compute(*reused[cache]);
+    }
   for (auto& a : acts)
     {
       std::unique_ptr<SingleScatterSimulation> s_on, s_off;
@@ -643,6 +696,30 @@ static void run_E(vmc::Ctx& ctx, const World& w, const ECase& e)
       ctx.count("superpositions_checked");
       const std::string d = differ(off, on);
       if (!d.empty()) ctx.violation("clause=cache_independence" + cls, kase, "activity " + a.name + ": cache disabled vs enabled: " + d);
+      // ---- the long-lived objects: same image object with new voxel values, same pointer set again, set_up, compute == fresh object
+      std::copy(a.im->begin_all(), a.im->end_all(), upd->begin_all());
+      for (int cache = 1; cache >= 0; --cache)
+        {
+          if (!reused[cache]) continue;
+          Out o;
+          try
+            {
+              reused[cache]->set_activity_image_sptr(upd);
+              reused[cache]->set_up();
+              o = compute(*reused[cache]);
+            }
+          catch (std::exception& ex) { o = Out(); o.status = 2; o.what = ex.what(); }
+          ctx.count("computes_E");
+          ctx.count("in_place_activity_updates_compared_with_fresh");
+          const std::string dr = differ(o, cache ? on : off);
+          if (!dr.empty())
+            ctx.violation("clause=history_independence;via=activity_image_updated_in_place_and_set_again;cache=" + vmc::str(cache) + cls, kase,
+                          "object re-used with its activity image object overwritten in place by '" + a.name + "' (same pointer passed to set_activity_image_sptr again; set_up; process_data) "
+                          "vs freshly configured object: " + dr);
+          if (o.status == 0 && !differ(o, reused_prev[cache]).empty())
+            { ctx.count("in_place_activity_updates_that_changed_the_output"); ctx.nontrivial(kase + ";reused;cache=" + vmc::str(cache) + ";act=" + a.name); }
+          reused_prev[cache] = o;
+        }
       // linearity against the basis (reference sum in double)
       const std::vector<double> x = small::flat(*a.im);
       size_t nonzero_bins = 0;
@@ -754,20 +831,25 @@ int main(int argc, char** argv)
     }
   // ---- part H
   {
-    struct HW { int g, zoom, tv, S0, phase, depth_quick, depth_thorough; };
+    struct HW { int g, zoom, tv, S0, phase, depth_quick, depth_thorough, ip; };
     const HW hws[] = { { 0, 0, 0, 0, 1, 5, 6 },   // caches filled by a first compute
                        { 0, 0, 0, 0, 0, 5, 6 },   // configured, never set up
                        { 0, 1, 0, -1, 1, 4, 5 },  // STIR's default zoom factors, scatter-point image derived from the attenuation image
                        { 0, 0, 0, -1, 1, 4, 5 },  // explicit zoom factors, derived scatter-point image
                        { 0, 0, 1, 0, 1, 4, 5 },   // T2 has another number of detectors
                        { 1, 0, 0, 0, 1, 0, 5 },   // larger scanner
-                       { 1, 0, 0, 0, 0, 0, 4 } };
+                       { 1, 0, 0, 0, 0, 0, 4 },
+                       // in-place worlds: caller-owned image objects, 22 operations (the 16 above + in-place update and setter call with the same object)
+                       { 0, 0, 0, 0, 1, 4, 5, 1 },   // caches filled by a first compute
+                       { 0, 0, 0, -1, 1, 0, 5, 1 },  // derived scatter-point image
+                       { 0, 0, 0, 0, 0, 0, 5, 1 },   // configured, never set up
+                       { 1, 0, 0, 0, 1, 0, 4, 1 } }; // larger scanner
     for (const HW& hw : hws)
       {
         const int depth = th ? hw.depth_thorough : hw.depth_quick;
         if (depth <= 0 && !ctx.replaying()) continue;
         World w = make_world(hw.g, hw.zoom, hw.tv);
-        w.S0 = hw.S0;
+        w.S0 = hw.S0; w.ip = hw.ip;
         run_H(ctx, w, hw.phase, depth, unit);
         if (!ctx.replaying() && ctx.expired()) goto done;
       }
